@@ -16,6 +16,7 @@ from .. import repo
 from ..gen import options as gopt
 from ..gen import programs
 from ..runner import Violation, sha
+from . import c13
 
 ID = "C11"
 LEVEL = "exploration"
@@ -23,12 +24,13 @@ STUCK_S = 240  # a single case may legitimately take this long (seconds) before 
 WORKERS = 4
 RULE = (
     "Hypothesis rule-based state machine over one long-lived process: requests are drawn from the repository's cases, "
-    "examples and library scripts, generated programs, sources with '# pytrapic:' directives, constexpr sources (two "
+    "examples and library scripts, generated programs, generated programs split over 1-3 library modules, sources with '# pytrapic:' directives, constexpr sources (two "
     "programs with the same call text but different bodies), erroring sources, x option vectors given as fresh "
     "dataclass objects, as dataclass objects shared across calls, and as dicts; rules: compile, compile again, compile "
     "the compact-toggled twin in between, compile an erroring source, compile with a shared options object. "
     "Invariants after every step: the result equals the result of the same (sources, option values) computed in a "
-    "fresh process (memoised per distinct request), equals every earlier result for that request in this history, "
+    "fresh process (memoised per distinct request; computed twice, by fresh processes with two different string-hash "
+    "seeds, which must agree), equals every earlier result for that request in this history, "
     "and the options object and source mapping equal deep copies taken before the call. Non-trivial: a history of >= 6 "
     "compilations containing a repeated request separated by a request with another compact value, and a "
     "directive-bearing source compiled with a shared options object; distinct by SHA-1 of the request sequence."
@@ -103,20 +105,23 @@ for line in sys.stdin:
     out.write(data + "\n")
     out.flush()
 """
-_server = None
+_servers = {}
 TRULY_FRESH_EVERY = 40  # every Nth distinct request is also computed in a brand-new interpreter
+# two template processes with different string-hash seeds: "a fresh process" is any fresh process, and the
+# iteration order of sets of strings differs between them (set by run_shard from VERIF_SEED and the shard)
+HASHSEEDS = ["0", "12345"]
 
 
-def server_result(srcs, optvals):
-    global _server
-    if _server is None or _server.poll() is not None:
+def server_result(srcs, optvals, which=0):
+    srv = _servers.get(which)
+    if srv is None or srv.poll() is not None:
         env = dict(os.environ)
         env.pop("PYTRAPIC_VERIF", None)
-        env["PYTHONHASHSEED"] = "0"
-        _server = subprocess.Popen([sys.executable, "-c", SERVER_SCRIPT, repo.SRC], stdin=subprocess.PIPE, stdout=subprocess.PIPE, text=True, env=env)
-    _server.stdin.write(json.dumps([srcs, optvals]) + "\n")
-    _server.stdin.flush()
-    line = _server.stdout.readline()
+        env["PYTHONHASHSEED"] = HASHSEEDS[which]
+        srv = _servers[which] = subprocess.Popen([sys.executable, "-c", SERVER_SCRIPT, repo.SRC], stdin=subprocess.PIPE, stdout=subprocess.PIPE, text=True, env=env)
+    srv.stdin.write(json.dumps([srcs, optvals]) + "\n")
+    srv.stdin.flush()
+    line = srv.stdout.readline()
     if not line:
         raise repo.HarnessError("fresh-process server died")
     return norm(json.loads(line))
@@ -125,7 +130,7 @@ def server_result(srcs, optvals):
 def brand_new_result(srcs, optvals):
     env = dict(os.environ)
     env.pop("PYTRAPIC_VERIF", None)
-    env["PYTHONHASHSEED"] = "0"
+    env["PYTHONHASHSEED"] = HASHSEEDS[1]
     p = subprocess.run([sys.executable, "-c", FRESH_SCRIPT, repo.SRC], input=json.dumps([srcs, optvals]), capture_output=True, text=True, env=env, timeout=300)
     line = [l for l in p.stdout.splitlines() if l.startswith("RESULT")]
     if not line:
@@ -140,6 +145,14 @@ def fresh(srcs, optvals):
             r = server_result(srcs, optvals)
             if not spurious_timeout(r, srcs):
                 break
+        for attempt in range(4):
+            ralt = server_result(srcs, optvals, 1)
+            if not spurious_timeout(ralt, srcs):
+                break
+        FRESH_STATS["second_hash_seed"] += 1
+        if ralt != r and not spurious_timeout(r, srcs) and not spurious_timeout(ralt, srcs):
+            raise Violation("C11:result-depends-on-the-hash-seed-of-the-process",
+                            {"sources": srcs, "options": optvals, "hash_seeds": list(HASHSEEDS), "first": r, "second": ralt})
         if BRAND_NEW_ENABLED[0] and len(FRESH) % TRULY_FRESH_EVERY == 0 and not spurious_timeout(r, srcs):
             for attempt in range(3):
                 r2 = brand_new_result(srcs, optvals)
@@ -154,7 +167,7 @@ def fresh(srcs, optvals):
     return FRESH[key]
 
 
-FRESH_STATS = {"brand_new": 0}
+FRESH_STATS = {"brand_new": 0, "second_hash_seed": 0}
 FIRST = {"v": None}
 PROCESS_LOG = []
 BRAND_NEW_ENABLED = [True]
@@ -221,6 +234,11 @@ class History(RuleBasedStateMachine):
     @rule(target=reqs, c=programs.program_cases(programs.Cfg(max_funcs=2, loop_stmts=2, func_stmts=2), nenv=0))
     def pick_generated(self, c):
         return c["src"]
+
+    @rule(target=reqs, mc=c13.cases())
+    def pick_modules(self, mc):
+        # programs split over 1-3 library modules with module-level state
+        return c13.render(mc)[0]
 
     def _compile(self, srcs, bits, mode):
         vec = gopt.vector_from_bits(bits)
@@ -324,6 +342,7 @@ class History(RuleBasedStateMachine):
 def run_shard(ctx):
     History.stats = ctx.stats
     BRAND_NEW_ENABLED[0] = ctx.shard < 2 or not ctx.quick()
+    HASHSEEDS[1] = str(1 + ctx.hyp_seed % 4294967290)
     n = ctx.scale(8, 30)
     steps = ctx.scale(14, 40)
     machine = hypothesis.seed(ctx.hyp_seed)(History)
@@ -344,12 +363,14 @@ def run_shard(ctx):
                                          "history": hist}})
     ctx.stats.extra["fresh_process_references"] = len(FRESH)
     ctx.stats.extra["brand_new_interpreter_references"] = FRESH_STATS["brand_new"]
-    if _server is not None:
+    ctx.stats.extra["references_repeated_under_a_second_hash_seed"] = FRESH_STATS["second_hash_seed"]
+    for srv in _servers.values():
         try:
-            _server.stdin.close()
-            _server.wait(timeout=10)
+            srv.stdin.close()
+            srv.wait(timeout=10)
         except Exception:
-            _server.kill()
+            srv.kill()
+    _servers.clear()
 
 
 def replay(case):
@@ -376,6 +397,17 @@ def replay(case):
         return {"kind": "violation", "signature": "C11:options-object-modified", "detail": {}}
     if a != b:
         return {"kind": "violation", "signature": "C11:result-differs-from-earlier-result-in-this-process", "detail": {}}
-    if a != fresh(srcs, vec):
-        return {"kind": "violation", "signature": "C11:result-differs-from-fresh-process", "detail": {}}
+    try:
+        if a != fresh(srcs, vec):
+            return {"kind": "violation", "signature": "C11:result-differs-from-fresh-process", "detail": {}}
+        for alt in case.get("hash_seeds", []):
+            # further fresh processes with other string-hash seeds
+            srv = _servers.pop(1, None)
+            if srv is not None:
+                srv.kill()
+            HASHSEEDS[1] = str(alt)
+            FRESH.clear()
+            fresh(srcs, vec)
+    except Violation as v:
+        return {"kind": "violation", "signature": v.signature, "detail": {k: x for k, x in v.detail.items() if k != "full_history"}}
     return {"kind": "ok"}
